@@ -412,15 +412,32 @@ fn show_secerr(e: &sections::Error) -> String {
     match e {
         #[cfg(feature = "sec")]
         E::Parse(P::AbruptEndInSection { .. }) => "abrupt".into(),
+        // `{ .. }` matches a unit, tuple or struct variant alike: only the variant NAME is relied on.  The line number of a blank-line
+        // error (C05: "with its 1-based line number") is read from the derived Debug text, whatever the payload's shape; the
+        // records carried by the other two kinds are no property's business and are not printed.
         #[cfg(feature = "sec")]
-        E::Parse(P::BlankLineInSection(n)) => format!("blank:{}", n),
+        E::Parse(p @ P::BlankLineInSection { .. }) => format!("blank:{}", number_after(&format!("{:?}", p), "BlankLineInSection")),
         #[cfg(feature = "sec")]
-        E::Parse(P::DataBetweenSections(d)) => format!("databetween:{}", show_drec(d)),
+        E::Parse(P::DataBetweenSections { .. }) => "databetween".into(),
         #[cfg(feature = "sec")]
-        E::Parse(P::HeaderInSection(h)) => format!("hdrin:{}", show_header(h)),
+        E::Parse(P::HeaderInSection { .. }) => "hdrin".into(),
         #[cfg(feature = "sec")]
         E::Parse(P::Reader(r)) => show_readerr(r).1,
         other => classify_unknown(other),
+    }
+}
+
+/// the first run of digits after `name` in `text` ("?" if there is none)
+fn number_after(text: &str, name: &str) -> String {
+    let rest = match text.rfind(name) {
+        Some(i) => &text[i + name.len()..],
+        None => text,
+    };
+    let digits: String = rest.chars().skip_while(|c| !c.is_ascii_digit()).take_while(|c| c.is_ascii_digit()).collect();
+    if digits.is_empty() {
+        "?".into()
+    } else {
+        digits
     }
 }
 
